@@ -1,0 +1,15 @@
+//go:build verif
+
+// Verification hook for property C19 (build tag "verif", add-only): the transports take their
+// *http.Client from transportConfig.httpClient, for which there is no public ClientOption.
+
+package mcp
+
+import "net/http"
+
+// VerifWithHTTPClient makes the client transports (Streamable and legacy SSE) use hc.
+func VerifWithHTTPClient(hc *http.Client) ClientOption {
+	return func(c *Client) {
+		c.transportConfig.httpClient = hc
+	}
+}
